@@ -1,12 +1,18 @@
 #!/bin/sh
-# Build every Lean package under lean/ (offline; each package is independent).
+# Build every Lean package that a registered check uses (offline; each package is independent).
 HERE="$(cd "$(dirname "$0")/.." && pwd)"
+PKGS=$(python3 -c "
+import json,sys
+m=json.load(open('$HERE/MANIFEST.json'))
+print(' '.join(sorted({c['engine'].split('/')[1] for c in m['checks']})))")
 rc=0
 pids=""
-for d in "$HERE"/lean/*/; do
+for p in $PKGS; do
+  d="$HERE/lean/$p"
   [ -f "$d/lakefile.toml" ] || continue
   ( cd "$d" && flock .build.lock lake build >"$d/.build.log" 2>&1 || { echo "build failed: $d"; tail -30 "$d/.build.log"; exit 1; } ) &
   pids="$pids $!"
 done
 for p in $pids; do wait $p || rc=1; done
+rm -rf /tmp/hio_*_test 2>/dev/null
 exit $rc
